@@ -75,6 +75,28 @@ CHECKS["C19"] = dict(
     design="3/C19",
 )
 
+CHECKS["C18"] = dict(
+    technique="symbolic execution of the real quimb.evo code on symbolic Hermitian Hamiltonians, states and times (unit symbols exp(i w t)); z3 identity queries; eigh contract stub with formally differentiated states and explicit certificates; recorders for expm_multiply and the ODE stepper",
+    text="Bounded symbolic model checking for d <= 3 (4 thorough): the right-hand-side builders equal -iH psi, -i[H,rho] and the Lindbladian (vectorised == matrix form); the 'solve' "
+         "method returns exp(-iH(t-t0)) applied to the state (two-sided for density operators) for symbolic update sequences incl. repeated and non-monotonic times, independent of "
+         "history; for a dense Hamiltonian the reported state satisfies the Schroedinger / von Neumann equation and initial condition modulo the eigh contract; 'expm' applies the "
+         "exponential of -iH dt to the previous state, two-sided for density operators or rejects; 'integrate' hands the right RHS / initial value / time to the stepper; "
+         "unsupported combinations raise; callbacks see exactly the reported states and times.",
+    note="Trusted: z3, qv engines, LAPACK eigh contract. expm_multiply is an uninterpreted exponential per generator (group law not needed); the ODE stepper, expm_multiply values and sparse "
+         "Hamiltonians are numeric cross-run only. Environment stubs (object dtype acts like complex128 in common_type/qarray, explt -> exp of a symbol) listed in the evidence.",
+    design="3/C18",
+)
+CHECKS["C20"] = dict(
+    technique="symbolic execution of quimb.calc on symbolic kets / density operators / observables with z3 identity queries against loop-written definitions; recorders in place of spectral primitives (eigvalsh, trace norm, sqrtm, log2) so that the operator handed to the primitive and the combining formula are decided",
+    text="Bounded symbolic model checking for dims over {2,3}, <= 3 subsystems, every subsystem choice incl. non-contiguous and reordered: kraus_op, dephase, pure-state fidelity / trace "
+         "distance / concurrence, correlation, pauli_decomp, partial_transpose, measure/projector, qid and ent_cross_matrix equal their definitions for all entry values; the entropy, "
+         "mutual information, negativity / logneg, Schmidt gap, tr_sqrt, trace distance, fidelity, concurrence and discord code paths (exact and subsystem-shortcut) hand the reference "
+         "reduced operator / partial transpose (or one with equal power traces) to the spectral primitive and combine the returned spectrum by the defining formula.",
+    note="Trusted: z3, qv engines. Spectral values and inequalities that are theorems about spectra, sparse inputs, purify, RNG-driven paths and the discord optimiser are numeric cross-run only "
+         "or outside. Environment stubs (abs/max/sqrt/log2 as module globals, qarray.astype no-op on object dtype) listed in the evidence.",
+    design="3/C20",
+)
+
 NA = {}
 
 
